@@ -137,9 +137,16 @@ pub fn generate(seed: u64, tier: Tier) -> Case {
                 // A new module; some of its types share their short name with types the
                 // observed closure uses.
                 let k = p.modules.len();
-                let mut path: Vec<String> = (0..rng.below(3))
-                    .map(|d| format!("n{}{}", d, rng.below(2)))
-                    .collect();
+                // Somewhere of its own, or nested under the path of a module the observed
+                // closure uses (`m0.pyxis` next to `m0/added3.pyxis`).
+                let mut path: Vec<String> = if rng.chance(1, 2) {
+                    let host = *rng.pick(&closed.iter().copied().collect::<Vec<_>>());
+                    p.modules[host].path.clone()
+                } else {
+                    (0..rng.below(3))
+                        .map(|d| format!("n{}{}", d, rng.below(2)))
+                        .collect()
+                };
                 path.push(format!("added{k}"));
                 p.modules.push(Module {
                     path,
